@@ -894,7 +894,8 @@ theorem apply_err_eq (rm : RM) (op : RMOp) (e : Err) (h : (rm.apply op).2.1 = .e
     all_goals simp_all
   | merge a b =>
     simp only [RM.apply, RM.merge] at h ⊢
-    split at h <;> simp_all
+    split at h <;> try split at h
+    all_goals simp_all
   | register req cb => simp [RM.apply, RM.register] at h
 
 theorem reserve_none_eq (rm : RM) (req : Req) (hs : (rm.reserve req).2.2.1 = none) :
